@@ -138,6 +138,7 @@ func UFBool(name string, args ...[]byte) bool {
 }
 
 func Log(tag string, v any) {}
+func MakeCap(n int)         {}
 
 func Or(a, b bool) bool      { return a || b }
 func And(a, b bool) bool     { return a && b }
